@@ -14,6 +14,7 @@ import DocsModel.Model.Actor
 import DocsModel.Model.Codec
 import DocsModel.Model.Session
 import DocsModel.Model.Coord
+import DocsModel.Model.Txn
 /-!
 Line-protocol driver: one output line per input line. The Rust harness pipes the same operation
 lines it applied to the real crate and compares the two output streams.
@@ -70,6 +71,8 @@ structure World where
   actors : List (Nat × Actor.AState) := []
   /-- two-node coordination systems (C11) -/
   coords : List (Nat × Coord.Sys) := []
+  /-- persistent stores with their transaction layer (C06) -/
+  pstores : List (Nat × Txn.P) := []
   /-- specification bookkeeping for C14: handles per (actor, document) = opens − releases -/
   handleCounts : List ((Nat × Bytes) × Nat) := []
 
@@ -354,6 +357,18 @@ def showSys (s : Sys) : String :=
 
 end CoordTok
 
+def parseTxnOp? : List String → Option Txn.Op
+  | ["put", tok] => (parseEntry? tok).map .put
+  | ["importns", ns, kind, raw] => do pure (.importNs (← Bytes.ofHex ns) (← parseNat? kind) (← Bytes.ofHex raw))
+  | ["remove", ns] => do pure (.remove (← Bytes.ofHex ns))
+  | ["peer", ns, nanos, peer] => do pure (.peer (← Bytes.ofHex ns) (← parseNat? nanos) (← Bytes.ofHex peer))
+  | ["policy", ns, pol] => do pure (.policy (← Bytes.ofHex ns) (← parsePolicy? pol))
+  | ["flush"] => some .flush
+  | ["readtables"] => some .readTables
+  | ["readowned"] => some .readSnapshotOwned
+  | ["readsnap"] => some .readSnapshot
+  | _ => none
+
 def showInsertResult : Tables.InsertResult → String
   | .inserted n => "inserted " ++ toString n
   | .notInserted => "notinserted"
@@ -578,6 +593,29 @@ def step (w : World) (line : String) : World × String :=
       | none => (w, "no-store")
     | _, _, _, _, _, _ => (w, "bad-op")
   -- snapshots and the join specification of a session
+  -- ---- the transaction layer of a persistent store (Txn.lean) ----
+  | ["pnew", sid] =>
+    match parseNat? sid with
+    | some sid => ({ w with pstores := (sid, {}) :: w.pstores.filter (·.1 != sid) }, "ok")
+    | none => (w, "bad-op")
+  | "prun" :: sid :: split :: aged :: rest =>
+    match parseNat? sid, parseBool? split,
+          (if aged = "-" then some [] else (aged.splitOn ",").mapM parseNat?), parseTxnOp? rest with
+    | some sid, some split, some aged, some op =>
+      match w.pstores.lookup sid with
+      | some p =>
+        let p' := Txn.P.run split (fun i => aged.contains i) p op
+        ({ w with pstores := (sid, p') :: w.pstores.filter (·.1 != sid) }, "accesses=" ++ toString p'.accesses)
+      | none => (w, "no-store")
+    | _, _, _, _ => (w, "bad-op")
+  -- what a reopened copy of the database file shows: the durable tables become table store `tid`
+  | ["pcrash", sid, tid] =>
+    match parseNat? sid, parseNat? tid with
+    | some sid, some tid =>
+      match w.pstores.lookup sid with
+      | some p => (w.setT tid (Tables.reopen p.durable), "ok")
+      | none => (w, "no-store")
+    | _, _ => (w, "bad-op")
   -- ---- session coordination between two nodes (Coord.lean) ----
   | ["cnew", sid, bg, sa, sb] =>
     match parseNat? sid, parseBool? bg, parseBool? sa, parseBool? sb with
